@@ -207,3 +207,11 @@ Theorem C02_shared_reassembly_refuted :
        recv_unlocked false ctl1 false s1 k2 small_msg = Some (ROob, s2, k2', small_msg) /\
        recv_unlocked false ctl1 true s2 k1' small_msg = Some (RWouldBlock, s3, k3, small_msg) /\ r_fs s3 = 2 + (16 * 256 + 17)).
 Proof. exact shared_reassembly_refuted. Qed.
+
+(* ------------------------------------------------------------------ bytestream-tcp *)
+
+(** The defect (reproduced on the real code: nice_agent_recv_messages never returns, agent lock held): in bytestream mode a
+    caller message of zero total capacity makes the inner loop of component_io_cb spin -- it runs out of ANY fuel. *)
+Theorem C02_bytestream_zero_capacity_spins_refuted : forall fuel acc,
+  rel_inner true ctl1 true fuel spin_s spin_k (m_bufs zero_msg) acc = None.
+Proof. exact bytestream_zero_capacity_spins. Qed.
